@@ -21,7 +21,7 @@ From Coq Require Import List String Bool ZArith QArith.
 Import ListNotations.
 From NV Require Import Crash.Outcome Crash.NumOps Crash.NumOpsProofs Crash.Index Crash.IndexProofs
   Crash.Lexer Crash.LexerProofs Crash.Span Crash.SpanProofs Crash.NameReg Crash.NameRegProofs
-  Crash.Defects Gen.PanicSites.
+  Crash.Defects Crash.MergeDispatch Crash.MergeDispatchProofs Gen.PanicSites.
 Open Scope string_scope.
 
 Inductive coverage : Type :=
@@ -39,9 +39,9 @@ Definition ledger : list (string * coverage) := [
   ("core/src/eval/cache/lazy.rs::ThunkData::into_closure:expect#1",
    Unproved "revertible thunk protocol: cached is set by build_cached/init_cached before it is read; modelled in coq/Mech (thunk machine) but no theorem is stated about this unwrap");
   ("core/src/eval/merge.rs::merge_fields:unwrap#1",
-   Unproved "merge_fields: unreachable!() arm and fields_merge_closurize(..).unwrap(); coq/Merge models the data algebra, not this dispatch (DESIGN §4 C10 lists it as planned)");
+   Unproved "fields_merge_closurize(..).unwrap(): its error comes from field_deps / saturate on the cache; coq/Merge models the data algebra, not the cache");
   ("core/src/eval/merge.rs::merge_fields:unreachable#1",
-   Unproved "merge_fields: unreachable!() arm and fields_merge_closurize(..).unwrap(); coq/Merge models the data algebra, not this dispatch (DESIGN §4 C10 lists it as planned)");
+   ByTheorem "no_panic_select_value" _ no_panic_select_value "the last arm of the match on (value1, value2) and the priorities: == and > are the hand-written PartialEq / Ord instances of MergePriority, which agree (prio_eq_cmp) and are antisymmetric, so one of the guarded arms always fires");
   ("core/src/eval/operation.rs::VirtualMachine<'ctxt, R, C>::eval_op2::Div:libcall#1",
    ByTheorem "no_panic_div" _ no_panic_div "Rational / Rational panics on a zero divisor: dominated by the test n2 == 0");
   ("core/src/eval/operation.rs::VirtualMachine<'ctxt, R, C>::eval_op2::Modulo:libcall#1",
